@@ -24,8 +24,11 @@ arbitrary input (`NoPanic`: the model's checked cursor / index arithmetic never 
 or length class, out-of-range fields).
 
 The proofs live in `Lemmas/Codec*.lean`; this file states the property-level theorems.
-Formats that are *not* modelled (BLE advertisement, mDNS records, Matter-TLV ↔ X.509) are only
-exercised on the implementation by the harness — nothing is claimed for them here.
+Round 2 added: the BLE recovery advertisement and the mDNS wire format (sections D16b-1 / D16b-2), the
+DER writer + Matter-TLV → X.509 conversion with a DER reader as the inverse (section 11), the DER
+reading layer, `der_utils.rs` and the CMS envelope of the certification declaration (section D16d).
+Still exercised on the implementation only (nothing is claimed for them here): the X.509
+DAC/PAI/PAA field walk, the CSR parser, the TLV content / validation of the certification declaration.
 -/
 namespace C17
 open Codec
